@@ -237,3 +237,23 @@ def show(t, lim=5):
     if k == 'unk':
         return "?%s" % (t[1],)
     return "%s(%s)" % (k, ", ".join(r(x) for x in t[1:]))
+
+
+def flatten_comp(t):
+    """[g(x) for x in (f(j) for j in S if c(j)) if d(x)]  ==  [g(f(j)) for j in S if c(j) if d(f(j))]
+    (one level of a comprehension over a comprehension; both with a single generator)"""
+    if not (isinstance(t, tuple) and len(t) == 4 and t[0] == 'comp' and len(t[3]) == 1):
+        return t
+    key, it, conds = t[3][0]
+    inner = it
+    if inner[0] == 'union' and len(inner[1]) == 1:
+        (inner,) = tuple(inner[1])
+    if not (isinstance(inner, tuple) and len(inner) == 4 and inner[0] == 'comp' and len(inner[3]) == 1
+            and inner[1] in ('gen', 'list', 'set', 'tuple')):
+        return t
+    ikey, iit, iconds = inner[3][0]
+    oelem = mk(('elem', it, key))
+    ielt = inner[2]
+    elt = replace(t[2], oelem, ielt)
+    nconds = tuple(iconds) + tuple(replace(c, oelem, ielt) for c in conds)
+    return flatten_comp(mk(('comp', t[1], elt, ((ikey, iit, nconds),))))
